@@ -8,6 +8,7 @@ from warnings import warn
 from quansino.mc.canonical import Canonical
 from quansino.mc.contexts import ExchangeContext
 from quansino.mc.criteria import CanonicalCriteria, GrandCanonicalCriteria
+from quansino.moves.composite import CompositeMove
 from quansino.moves.displacement import DisplacementMove
 from quansino.moves.exchange import ExchangeMove
 
@@ -206,10 +207,20 @@ class GrandCanonical(
 
     def save_state(self) -> None:
         """Save the current state of the context and update move labels."""
+        notified: list[Move] = []
+
+        def notify(move: Move) -> None:
+            if isinstance(move, CompositeMove):
+                for sub_move in move.moves:
+                    notify(sub_move)
+            elif not any(move is other for other in notified):
+                notified.append(move)
+                move.on_atoms_changed(
+                    self.context._added_indices, self.context._deleted_indices
+                )
+
         for move_storage in self.moves.values():
-            move_storage.move.on_atoms_changed(
-                self.context._added_indices, self.context._deleted_indices
-            )
+            notify(move_storage.move)
 
         super().save_state()
 
